@@ -73,7 +73,7 @@ func (e *ExecutionConfig) MarshalJSON() ([]byte, error) {
 	}
 	var minValue string
 	if e.MinValue != nil {
-		minValue = fmt.Sprintf("%v", e.MinValue.Div(weiPerETH))
+		minValue = fmt.Sprintf("%v", e.MinValue.Shift(-18))
 	}
 
 	return json.Marshal(&executionConfigJSON{
